@@ -215,8 +215,8 @@ def table(defs):
     return dict(rows=rows, order=order, presence=[(nm, presence[nm]) for nm in order])
 
 
-N_CASE = 24 if TIER != "thorough" else 160
-MAX_CASES, MAX_LINES = (7, 30) if TIER != "thorough" else (12, 50)   # size limit of a generated text (rejection sampling)
+N_CASE = 24 if TIER != "thorough" else 80
+MAX_CASES, MAX_LINES = (7, 30) if TIER != "thorough" else (8, 36)   # size limit of a generated text (rejection sampling)
 
 
 def _sized(gen, n, seed0):
